@@ -252,10 +252,10 @@ theorem rho_one_at_farthest {K : Type} [Field K] [LinearOrder K] [IsStrictOrdere
 theorem zero_outside_mask {K : Type} [Field K] (sqrtN : Nat → K) (cos sin : K → K) (j : Nat) (normalize : Bool) (rho theta : K) :
     zernAt sqrtN cos sin j normalize rho theta false = 0 ∧ zernAt sqrtN cos sin 1 normalize rho theta true = 1 := by
   constructor
-  · simp [zernAt]
+  · unfold zernAt zernCore; simp only [Bool.false_eq_true, if_false, mul_zero]; split_ifs <;> rfl
   · have h1 : nollN 1 = 0 := by decide
     have h2 : nollM 1 = 0 := by decide
-    simp [zernAt, h1, h2]
+    simp [zernAt, zernCore, h1, h2]
 
 /-- **the mask enters only through its support**: two weight arrays of the same shape that are non-zero at the same samples give
 the same Boolean mask, hence the same moments, origin, coordinates and mode values (all of which are functions of that mask) -/
